@@ -67,6 +67,7 @@ class RunEnv:
         self.defaults = defaults or {}
         self.extra_names = {}
         self.shift = 0      # rotates 'rot' answers: differs per execution
+        self.tag = ''       # appended to volatile tokens (per-thread mark)
 
     # -- registry -------------------------------------------------------
     def site(self, name):
@@ -124,7 +125,7 @@ class RunEnv:
             return self.materialise(
                 r['rot'][(k - 1 + self.shift) % len(r['rot'])], name, k)
         if 'tok' in r:                   # volatile token: differs per call
-            return '%s#%d' % (r['tok'], k)
+            return '%s#%d%s' % (r['tok'], k, self.tag)
         if 'v' in r:
             return r['v']
         if 'list' in r:
